@@ -5,6 +5,8 @@ package harness
 import (
 	"context"
 	"fmt"
+	"net/http"
+	"net/http/httptest"
 	"reflect"
 	"sort"
 	"strings"
@@ -12,9 +14,12 @@ import (
 	"time"
 
 	"google.golang.org/grpc"
+	"google.golang.org/grpc/codes"
+	"google.golang.org/grpc/status"
 	"pgregory.net/rapid"
 
 	"github.com/fullstorydev/grpchan"
+	pb "github.com/fullstorydev/grpchan/grpchantesting"
 	"github.com/fullstorydev/grpchan/httpgrpc"
 	"github.com/fullstorydev/grpchan/inprocgrpc"
 )
@@ -87,8 +92,17 @@ func (op *c15Op) desc() *grpc.ServiceDesc {
 	for _, s := range op.Streams {
 		d.Streams = append(d.Streams, grpc.StreamDesc{StreamName: s.Name, ClientStreams: s.CS, ServerStreams: s.SS, Handler: streamHandler(kBidi)})
 	}
+	// every service can be probed by a call: a method that answers whatever the handler object is
+	d.Methods = append(d.Methods, grpc.MethodDesc{MethodName: c15Probe, Handler: func(srv interface{}, ctx context.Context, dec func(interface{}) error, _ grpc.UnaryServerInterceptor) (interface{}, error) {
+		if err := dec(new(pb.Message)); err != nil {
+			return nil, err
+		}
+		return &pb.Message{Count: 42}, nil
+	}})
 	return d
 }
+
+const c15Probe = "VerifProbe"
 
 type c15Entry struct {
 	desc    *grpc.ServiceDesc
@@ -186,6 +200,17 @@ func propC15History(c c15Case) *Outcome {
 		s := httpgrpc.NewServer()
 		reg, info = s, s.GetServiceInfo
 	}
+	var callConn grpc.ClientConnInterface
+	switch t := reg.(type) {
+	case *inprocgrpc.Channel:
+		callConn = t
+	case *httpgrpc.Server:
+		callConn = &httpgrpc.Channel{BaseURL: baseURL, Transport: rtFunc(func(r *http.Request) (*http.Response, error) {
+			w := httptest.NewRecorder()
+			t.ServeHTTP(w, r)
+			return w.Result(), nil
+		})}
+	}
 	model := map[string]c15Entry{}
 	ref := grpc.NewServer() // never served: only its registry is consulted
 	refused := 0
@@ -236,10 +261,46 @@ func propC15History(c c15Case) *Outcome {
 		if why := sameServiceInfo(got, ref.GetServiceInfo()); why != "" {
 			return fmt.Sprintf("step %d: GetServiceInfo differs from grpc.Server's for the same registrations: %s", step, why)
 		}
+		// the answer is the caller's to keep and to edit (a listing that hides internal services, say): doing so
+		// changes nothing about what the registry reports next time
+		for name, si := range got {
+			for i := range si.Methods {
+				si.Methods[i].Name = "scribbled"
+			}
+			si.Metadata = "scribbled"
+			got[name] = si
+			if len(got) > 1 || step%2 == 0 {
+				delete(got, name)
+			}
+		}
+		got["verif.Injected"] = grpc.ServiceInfo{}
+		again := info()
+		if again == nil {
+			again = map[string]grpc.ServiceInfo{}
+		}
+		if why := sameServiceInfo(again, ref.GetServiceInfo()); why != "" {
+			return fmt.Sprintf("step %d: GetServiceInfo asked a second time, after the caller edited the first answer, differs from grpc.Server's: %s", step, why)
+		}
 		return ""
 	}
 	for i, op := range c.Ops {
 		o.class("op=%s", op.Kind)
+		if op.Kind == "call" {
+			// looking a service up by calling it: registered (by now) => its handler answers, otherwise a clean refusal
+			if callConn == nil {
+				continue
+			}
+			out := new(pb.Message)
+			err := callConn.Invoke(context.Background(), "/"+op.Name+"/"+c15Probe, &pb.Message{}, out)
+			_, registered := model[op.Name]
+			if registered && (err != nil || out.Count != 42) {
+				return o.failf("%s: step %d: service %q is registered, a call to it returned %v (response %v)", c.Target, i, op.Name, err, out)
+			}
+			if !registered && (err == nil || status.Code(err) == codes.OK) {
+				return o.failf("%s: step %d: service %q is not registered, a call to it returned %v", c.Target, i, op.Name, err)
+			}
+			continue
+		}
 		if op.Kind != "reg" {
 			// query / foreach / info are all covered by the invariant below
 			if why := check(i); why != "" {
@@ -318,7 +379,10 @@ func genC15(t *rapid.T) c15Case {
 	c := c15Case{Target: rapid.SampledFrom([]string{"map", "map", "inproc", "httpserver"}).Draw(t, "target")}
 	n := rapid.IntRange(1, 12).Draw(t, "nops")
 	for i := 0; i < n; i++ {
-		op := c15Op{Kind: rapid.SampledFrom([]string{"reg", "reg", "reg", "query", "foreach", "info"}).Draw(t, "kind")}
+		op := c15Op{Kind: rapid.SampledFrom([]string{"reg", "reg", "reg", "query", "foreach", "info", "call"}).Draw(t, "kind")}
+		if op.Kind == "call" {
+			op.Name = rapid.SampledFrom(c15Names).Draw(t, "callname")
+		}
 		if op.Kind == "reg" {
 			op.Name = rapid.SampledFrom(c15Names).Draw(t, "name")
 			ms := rapid.Permutation(c15Methods).Draw(t, "methods")
@@ -343,7 +407,7 @@ func genC15(t *rapid.T) c15Case {
 
 func init() { registerReplay("C15", propC15) }
 
-const c15Rule = "rapid-generated histories (1..12 ops: register valid / duplicate name / handler not implementing HandlerType, query, iterate, info) over HandlerMap, inprocgrpc.Channel and httpgrpc.Server with generated descriptors (0..5 unary + 0..5 streaming methods, all flag combinations, string/int/nil metadata); " +
+const c15Rule = "rapid-generated histories (1..12 ops: register valid / duplicate name / handler not implementing HandlerType, query, iterate, info - whose answer the caller then edits -, a call to a probe method of a named service, before and after its registration) over HandlerMap, inprocgrpc.Channel and httpgrpc.Server with generated descriptors (0..5 unary + 0..5 streaming methods, all flag combinations, string/int/nil metadata); " +
 	"invariant after every step: QueryService agrees with a model map on every name seen and on near misses (identical pointers or nil,nil), ForEach visits the model exactly once each, GetServiceInfo equals (methods as multisets) what a fresh grpc.Server given the same valid registrations reports; refused registrations panic and change nothing; " +
 	"also generated since the seeded rounds: handlers with the right method name and a wrong signature, near-miss names (.X, X., /X), typed-nil handlers, a second service interface (a handler type valid for one service offered for the other), registration through grpchan.WithInterceptor, handler values whose pointer type alone implements the interface; " +
 	"non-trivial = history ending with >=2 services or containing a refused registration; distinct by case hash"
